@@ -78,7 +78,7 @@ RefViol(ev, ln) ==
     IN
     (IF ev.status # 0 THEN <<[l |-> ln, prop |-> "C14,C03,C15", ctx |-> Ctx(ev), what |-> IF ev.status = 99999 THEN "the scenario does not terminate (endless loop in the output stack)"
                                                                                                 ELSE "process died while producing the outputs (signal / abnormal exit)", status |-> ev.status]>> ELSE <<>>)
-    \o (IF \E i \in apil : log[i].r # "ok" THEN <<[l |-> ln, prop |-> "C14,C13", ctx |-> Ctx(ev), what |-> "an API call failed in a fault-free run"]>> ELSE <<>>)
+    \o (IF \E i \in apil : log[i].r # "ok" /\ log[i].c # "rotbad" THEN <<[l |-> ln, prop |-> "C14,C13", ctx |-> Ctx(ev), what |-> "an API call failed in a fault-free run"]>> ELSE <<>>)
     \o (IF named /\ \E i \in sysl : log[i].c \in {"write", "writev"} /\ ~log[i].part
         THEN <<[l |-> ln, prop |-> "C15", ctx |-> Ctx(ev), what |-> "data written to a file that does not carry the .part suffix"]>> ELSE <<>>)
     \o (IF named /\ \E i \in sysl : log[i].c = "rename" /\ ~log[i].pq
